@@ -408,6 +408,9 @@ for sfx, tbl in (("257_1", "HLIT 257, HDIST 1"), ("286_30", "HLIT 286, HDIST 30"
 H("k07e_dyn_header_read_post_more", "huffman_encoding", ["C05", "C07", "C03"], tier="thorough", unwind=8, unwindset={"dyn_header_post": 22, "HuffmanOriginalEncoding.*read": 21}, timeout=3000, mem_gb=24,
   claim="as k07e_dyn_header_read_post_* for tables of up to 10 run-length items", functions=["HuffmanOriginalEncoding::read"], bounds="HLIT 260, HDIST 8; every HCLEN, code-length code and sequence of <= 10 run-length symbols with every extra-bits value",
   assumptions=["calculate_huffman_code_tree / decode_symbol replaced by their contracts", "scripted + symbolic recording bit source (ReadBits seam)"])
+H("k03h_dyn_lengths_expand_small", "huffman_encoding", ["C03", "C07", "C04"], tier="quick", unwind=10, unwindset={"k03h": 9, "rfc_expand": 10, "dyn_lengths_shape": 12, "get_literal_distance_lengths": 12, "to_vec|ConvertVec|clone_from_slice|spec_extend": 14}, timeout=900, mem_gb=12,
+  claim="as k03h_dyn_lengths_expand with the literal/distance split point at 4 (the function does not depend on HLIT >= 257): small enough for counterexamples to be replayed natively",
+  functions=["HuffmanOriginalEncoding::get_literal_distance_lengths"], bounds="two layouts: 4 + 3 explicit lengths; 3 explicit lengths, a repeat of 4 crossing the split, a zero run of 3, one explicit length; every code length 0..=15", outside="other layouts")
 H("k03h_dyn_lengths_expand", "huffman_encoding", ["C03", "C07", "C04"], tier="quick", unwind=8, unwindset={"k03h": 12, "rfc_expand": 140, "dyn_lengths_shape": 20, "get_literal_distance_lengths": 140, "to_vec|ConvertVec|clone_from_slice|spec_extend": 260}, timeout=1500, mem_gb=16,
   claim="the code lengths both the reader and the writer of a dynamic block build their Huffman codes from (HuffmanOriginalEncoding::get_literal_distance_lengths) equal the RFC 1951 3.2.7 expansion of the run-length items split at HLIT: no symbol added, dropped or moved (a repeat may cross the literal/distance boundary)",
   functions=["HuffmanOriginalEncoding::get_literal_distance_lengths"],
